@@ -23,6 +23,18 @@ CHECKS = {
 }
 
 PENDING = {}
+CHECKS["C01"] = ("ledger", "exploration",
+   "Seeded search over wallet histories on a real SQLite wallet fed by a simulated, forkable chain (real note encryption, several accounts, three pools, internal/external receipts, spends, foreign traffic, empty blocks): honest sync steps from either end, arbitrary-order scans with repeats, forks with re-mined transactions, explicit rewinds, restarts, tip updates, failing / stale block sources and SQLite interrupts, then a fault-free sync to completion. After every operation the reported total+uneconomic balance per account and pool must equal the ledger of notes received and not spent in scanned blocks of the current chain (an envelope only while transactions orphaned by a rewind are within their 40-block expiry guess), every scanned note must be present with the right account, value, scope, nullifier, position, mined height and spend, and nothing phantom may exist; when fully scanned, mined notes, spends and balances must equal those of a fresh wallet that scanned the same chain once in height order. Sampling, not enumeration.",
+   "4.1", "Transparent coins enter only through wallet-built transactions (not yet part of this check); prior chain states handed to the wallet are the true frontiers; a rewind refused by the wallet ends the run without verdict.",
+   "deterministic simulation: seeded wallet histories with faults vs. ledger model + differential fresh wallet")
+CHECKS["C06"] = ("trees", "exploration",
+   "Same wallet histories as C01 with birthdays just below shard boundaries, custom anchor-retention intervals and runs long enough to exceed the 100-checkpoint pruning budget. After every operation: each retained checkpoint's tree size equals the chain's, its root equals the independently computed frontier root of the simulated chain (or is not yet computable only while blocks below it are unscanned), Merkle paths of unspent scanned notes recompute the true root, all active pools are checkpointed at the same heights above the lazily pruned old end, every scanned retention-grid boundary keeps a checkpoint (also on empty blocks and after more than 100 newer checkpoints), and nothing above a rewind height remains.",
+   "4.5", "The frontier oracle uses incrementalmerkletree::Frontier (a dependency, not code under test) over commitments the harness generated itself; roots are sampled per operation and checked exhaustively at the end of a run.",
+   "deterministic simulation: seeded wallet histories with rewinds/forks vs. independent frontier oracle")
+CHECKS["C15"] = ("queue", "exploration",
+   "Wallet histories of tip updates, scans of chunks from either end of any suggested range, discovered notes, forks, rewinds, restarts and faulty scans. After every queue mutation the stored queue must be a sorted, gap-free, non-overlapping partition with adjacent equal priorities merged, suggest_scan_ranges must equal the entries above Scanned in priority order, and exactly the heights the model scanned must be marked Scanned. Bounded liveness: once faults stop, the documented sync loop (reorg detection by hash, tip update, first suggestion, scan, rewind on continuity error) must reach 'nothing to suggest, every block from the birthday to the tip scanned, fully-scanned height = tip' within a step bound derived from the number of blocks and ranges.",
+   "4.8", "Scans are confined to suggested ranges (what the property quantifies over); the pointwise priority model for caller-supplied insertions (queue_rescans, forced rescans through rewind_to_chain_state) is not yet part of this check.",
+   "deterministic simulation: seeded sync histories vs. queue invariants + bounded-liveness oracle")
 CHECKS["C03"] = ("stream", "fault_enumeration",
    "The stream-seam part of the property: streams of back-to-back generated transactions (every branch / version), block headers and whole blocks are delivered through a simulator-owned Read/Write transport that injects short reads and writes, EINTR, truncation/EOF, hard errors, zero-length writes, single-bit flips, non-canonical and hostile count fields and out-of-range amounts at seeded positions; oracles: exact consumption at every record boundary, identical txid / auth commitment / field-by-field rendering / re-serialisation, v1-v4 and header ids equal sha256d of the consumed bytes, straddling record rejected, errors propagated with only a prefix written, no panic, no count-driven allocation, accepted mutants are re-serialisation fixpoints. zcash_encoding 0.5 primitives are driven the same way against a reference encoding. Fault positions are sampled per record, not enumerated exhaustively.",
    "4.3", "Traffic is what the repository's arb_tx generators produce (normalised by one round trip only where the generator emits values no wire transaction can carry); Sprout JoinSplit bodies are not generated; published zcash_encoding 0.4 (registry) is exercised only through the transaction codecs.",
@@ -67,13 +79,10 @@ def main():
 
 HOOK_COMMITS = ["abbf854"]
 PENDING.update({
- "C01": "check not built yet at this commit (planned: wallet-sim ledger, DESIGN.md section 4.1)",
  "C02": "check not built yet at this commit (planned: wallet-sim atomic, DESIGN.md section 4.2)",
  "C05": "check not built yet at this commit (planned: scan-sim batch, DESIGN.md section 4.4)",
- "C06": "check not built yet at this commit (planned: wallet-sim trees, DESIGN.md section 4.5)",
  "C08": "check not built yet at this commit (planned: wallet-sim spend, DESIGN.md section 4.6)",
  "C13": "check not built yet at this commit (planned: pczt-sim parties, DESIGN.md section 4.7)",
- "C15": "check not built yet at this commit (planned: wallet-sim queue, DESIGN.md section 4.8)",
  "C17": "check not built yet at this commit (planned: migration-sim clock, DESIGN.md section 4.9)",
  "C18": "check not built yet at this commit (planned: migration-sim lifecycle, DESIGN.md section 4.10)",
 })
